@@ -69,6 +69,30 @@ CHECKS = {
 DEFAULT_NA = "check not built yet in this revision of /verif (planned in DESIGN.md section 5)"
 
 checks, na = [], []
+# workloads and monitors added in the second build session (DESIGN appendix A.1c-A.1h)
+EXTRA = {
+ "C01": "; workload classes: sibling / alias / swapped-grid-kind models run first in the process, one params mapping edited in place between calls, second calls with other leaf types, utility in units 1e-30..1e290, -inf values reached with probability 0, integer-dtype utilities, stateless models, axes of 150-1200 points, three continuous states; advisory trace checker of the backward loop (W9)",
+ "C02": "; value arrays passed to either target; single precision; units 1e-30..1e290; a 32000-agent panel with 24-30 point continuous choice grids; advisory trace checker of the simulate loop (W8)",
+ "C03": "; law of motion judged for every reported row inside the space (also agents without a finite optimum); many-category states with int8/uint8 initial states; simulate built with jit=False",
+ "C04": "; twin cases in another interpreter session (PYTHONHASHSEED) compared by frame digest; seed 0; seed / target / initial-state representations rotated",
+ "C05": "; a twin made of the same grid and function objects in reverse declaration order processed first; second call of every solve function",
+ "C06": "; integer-node grids with int-typed initial states; units 1e-30..1e290; params edited in place between solve_and_simulate calls; the caller's value arrays handed over twice",
+ "C07": "; alias sibling sharing the judged model's function objects under other names; constraints consuming next-state outputs; many-category transition arrays with int8/uint8 labels",
+ "C08": "; groups with unequal restricted-row counts summing to multiples of the group size; segment template; numpy initial states in other key orders",
+ "C09": "; siblings (other bodies, swapped grid kinds) run first; params and initial_states mappings re-used and edited in place; a single-precision call inside each history; probabilities of 1e-20; the caller's value arrays re-used; four hash seeds per case",
+ "C10": "; permutation written with the base model's own grid and function objects; layout mismatches reported as verdicts; differences of discrete variables in utilities",
+ "C11": "; affine law through parameters edited in place on one solve / solve_and_simulate function (value column of the simulated panel); integer-dtype and stateless templates",
+ "C12": "; 62 context variants of the rule violations on 4-9 bases (with and without filters); near-integer category codes",
+ "C13": "; sibling models with the same function names and targets run first; one initial_states mapping re-used; panels above 2**14 rows; simulate built with jit=False",
+ "C14": "; swapped-grid-kind representation built first; -inf entries on exact-node grids; int8/uint8 labels on axes with 12-20 categories; shuffled info-dict order; axes of 800-2500 points",
+ "C15": "; arrays with infinite entries at exact coordinates; twin grid of the other kind materialised first; integer-typed values; exact-rational oracle for linear coordinates",
+ "C16": "; ClassVar category classes; subclass-after-base sequences; W11: continuous choice grids held by the generated solve function equal the specification",
+ "C17": "; W10: spaces and choice segments held per period by the generated solve function; filters with their own reductions",
+ "C18": "; near ties (3e-7 relative); narrow-integer segment ids; values below float32's lowest number; producers whose signature order differs from the listed order",
+ "C19": "; defaults (two-sided oracle: ValueError or by-name binding); argument lists must come back unchanged, second dispatcher from the same list; unknown keyword with the right argument count",
+ "C20": "; integer-typed values; scale as python / numpy / 0-d array",
+}
+
 for p in props:
     pid = p["id"]
     have = os.path.exists(os.path.join(V, "checks", pid.lower() + ".py")) and pid in CHECKS
@@ -85,7 +109,7 @@ for p in props:
         "engine": "vlib",
         "level_claimed": {"category": c.get("category", "exploration"), "text": c["text"], "design_ref": c["ref"]},
         "level_note": c["note"],
-        "technique": c["technique"],
+        "technique": c["technique"] + EXTRA.get(pid, ""),
     })
 m = {
  "version": 1,
